@@ -18,12 +18,14 @@ TRUSTED_BASE = [
     "extraction (ExtrOcamlBasic only) and the OCaml integer driver",
 ]
 ASSUMPTIONS = ["random.randrange / random.shuffle may return any value of their range (that is what 'every outcome' means)"]
-TECHNIQUE = "choice-script model of the traversal; Coq proof (simulation by a frontier-of-queues relation, potential function for the loop bound) that every script yields a valid order; Coq enumeration of all valid orders; exhaustive enumeration of the real code's random outcomes on small inputs compared per script and as sets"
+TECHNIQUE = "choice-script model of the traversal; Coq proofs that every script yields a valid order (simulation by a frontier-of-queues relation, potential function for the loop bound) and that every valid order is reached by a constructed script; Coq enumeration of all valid orders; exhaustive enumeration of the real code's random outcomes on small inputs compared per script and as sets"
 LEVEL = "proof"
 LEVEL_TEXT = ("Props/C17.v: C17_valid - for every value, depth limit and script of random choices, whatever the traversal model returns is a valid order (every node once, parents first, "
-              "array elements in index order); C17_loop_terminates; C17_frontier_sound. NOT yet proved in general (partial): exhaustiveness, and the statement for whole queries (wildcard / filter "
-              "selectors also shuffle); for every small value the real code's complete outcome set equals the specification's set of container orders, script by script equal to the model.")
-LEVEL_NOTE = "Partial for exhaustiveness and whole queries (enumeration per generated value). Trusted: Coq kernel; Spec/Nondet.v; Model/NdVisit.v tied script by script; chooser; extraction and driver."
+              "array elements in index order); C17_exhaustive - conversely, for every valid order of a value within the depth limit there is a script on which the traversal visits the containers in exactly "
+              "that order (the script is constructed: generator index for every randrange, permutation number for every shuffle), and C17_exhaustive_results - hence every nodelist a descendant segment may "
+              "produce is produced; C17_loop_terminates; C17_frontier_sound. NOT proved (partial): the statement for whole queries (wildcard / filter selectors also shuffle object members): decided by "
+              "correspondence; for every small value the real code's complete outcome set equals the specification's set of container orders, script by script equal to the model.")
+LEVEL_NOTE = "Partial for whole queries. Trusted: Coq kernel; Spec/Nondet.v; Model/NdVisit.v tied script by script; chooser; extraction and driver."
 norm_reply = harness.norm_reply
 
 
